@@ -239,6 +239,14 @@ def handle (toks : List String) : String :=
       let g0 : HookState := ⟨[], [], 0, []⟩
       let g := runTrace g0 t
       s!"{g.preHooks.length} {g.postHooks.length} {g.modeStack.length} {g.nextId}"
+  -- hookev13 e1 e2 x x …  → state after every event: pre,post,stack;…
+  | "hookev13" :: evs =>
+      let r0 : HookRun := ⟨⟨[], [], 0, []⟩, []⟩
+      let (_, outs) := evs.foldl (fun (acc : HookRun × List String) e =>
+        let ev := if e.startsWith "e" then HookEvent.enter ((e.drop 1).toString.toNat!) else HookEvent.exit
+        let r := acc.1.step ev
+        (r, acc.2 ++ [s!"{r.g.preHooks.length},{r.g.postHooks.length},{r.g.modeStack.length}"])) (r0, [])
+      ";".intercalate outs
   -- C04
   | ["pack", bits, shape, data] =>
       let t : T Nat := ⟨parseShape shape, (parseNatList data).toArray⟩
